@@ -11,10 +11,15 @@
 //!   C25 tlfrom tl=<v> fmt=<pct> pj= pt= n=               -> ok s=<sv> tl=<v> | err:<class> tl=<v>   (Settings::from_string, thread-local)
 //!   C25 tlset tl=<v> p=<pct> v=<v> n=                    -> ok tl=<v> | err:<class> tl=<v>          (set_thread_local_value)
 //!   C25 ctx dflt=<v> cur=<v> pj= pt= nj= nt=             -> ok s=<sv> | err:<class> s=<sv>         (Context::set_settings(&str))
+//!   C25 ctxval dflt=<v> cur=<v> pj= n=                   -> ok s=<sv> | err:<class> s=<sv>         (Context::set_settings(serde_json::Value))
+//!   C25 file cur=<v> ext=<pct|-> u=<0|1> rd=<0|1> pj= pt= n=   -> ok s=<sv> | err:<class>           (Settings::with_file)
+//!   C25 tlfile tl=<v> ext= u= rd= pj= pt= n=             -> ok s=<sv> tl=<v> | err:<class> tl=<v>  (Settings::from_file, thread-local)
+//! <class> = the `c2pa::Error` variant name (BadParam, UnsupportedType, IoError, VersionCompatibility, …; never the message).
 //! <v>  = n | t | f | #<number text>; | s<pct>; | [<v>*] | {(<pct>;<v>)*}   (insertion order)
 //! <sv> = the same with keys sorted recursively; <pct> = [A-Za-z0-9_] literal, other bytes %xx.
 //! `pj`/`pt` = what the JSON / TOML parser made of the document (`!` = rejected),
-//! `n` = deserialize→validate→serialize of the merged value, executed by the real serde (`!` = rejected).
+//! `n` = deserialize→validate→serialize of the merged value, executed by the real serde
+//!       (`!` = rejected by the deserializer, `!<Variant>` = rejected by `validate` with that error variant).
 
 use std::{fmt::Write as _, panic::AssertUnwindSafe};
 
@@ -204,16 +209,44 @@ fn parse_toml_ref(text: &str) -> Option<Value> {
 
 fn parse_ref(text: &str, fmt: &str) -> Result<Value, &'static str> {
     match fmt.to_ascii_lowercase().as_str() {
-        "json" => parse_json_ref(text).ok_or("bad"),
-        "toml" => parse_toml_ref(text).ok_or("bad"),
-        _ => Err("format"),
+        "json" => parse_json_ref(text).ok_or(BADPARAM),
+        "toml" => parse_toml_ref(text).ok_or(BADPARAM),
+        _ => Err(FORMAT),
     }
 }
 
-fn err_class(e: &c2pa::Error) -> &'static str {
-    match e {
-        c2pa::Error::UnsupportedType => "format",
-        _ => "bad",
+/// The variant name of the error (the identifier before any payload) — never its message.
+fn err_class(e: &c2pa::Error) -> String {
+    format!("{e:?}").chars().take_while(|c| c.is_ascii_alphanumeric() || *c == '_').collect()
+}
+
+const FORMAT: &str = "UnsupportedType";
+const BADPARAM: &str = "BadParam";
+
+/// `norm_real` with the reason of a rejection: `Err("")` = the deserializer refused (surfaces as
+/// `BadParam`), `Err(variant)` = `validate` refused with that error variant.
+fn norm_class(v: &Value) -> Result<(Settings, Value), String> {
+    let s: Settings = serde_json::from_value(v.clone()).map_err(|_| String::new())?;
+    hk::validate(&s).map_err(|e| err_class(&e))?;
+    let out = serde_json::to_value(&s).map_err(|_| "to_value".to_string())?;
+    Ok((s, out))
+}
+
+/// the `n=` field of a request: what `norm` does with the merged value the implementation built
+fn n_enc(merged: Option<&Value>) -> String {
+    match merged.map(norm_class) {
+        None => "!".to_string(),
+        Some(Ok((_, v))) => enc_sorted(&v),
+        Some(Err(c)) => format!("!{c}"),
+    }
+}
+
+/// the error variant the caller must see when `norm` refuses `v` (oracle side)
+fn norm_err_class(v: &Value) -> Option<String> {
+    match norm_class(v) {
+        Ok(_) => None,
+        Err(c) if c.is_empty() => Some(BADPARAM.to_string()),
+        Err(c) => Some(c),
     }
 }
 
@@ -683,6 +716,29 @@ fn case_set(run: &mut Run, t: Value, p: String, v: Value) {
             if hk::get_at_path(&x, &p) != Some(&v) || ref_get(&x, &p) != Some(&v) {
                 run.fail(idx, "get-after-set", format!("after set_at_path({p:?}) get_at_path returns {:?}, not {}", hk::get_at_path(&x, &p), v));
             }
+            // frame at every depth (set_frame): a path that is neither a prefix of `p` nor below
+            // `p` reads the same before and after
+            let psegs: Vec<&str> = p.split('.').collect();
+            let mut qs = vec![];
+            existing_paths(&t, None, &mut qs);
+            let mut deep_siblings = 0;
+            for q in &qs {
+                let qsegs: Vec<&str> = q.split('.').collect();
+                let n = psegs.len().min(qsegs.len());
+                if psegs[..n] == qsegs[..n] {
+                    continue; // one is a prefix of the other
+                }
+                if qsegs.len() >= 2 {
+                    deep_siblings += 1;
+                }
+                if hk::get_at_path(&x, q) != hk::get_at_path(&t, q) {
+                    run.fail(idx, "set-frame", format!("set_at_path({p:?}) changed the unrelated path {q:?}"));
+                    break;
+                }
+            }
+            if deep_siblings > 0 && psegs.len() >= 2 {
+                run.count("set_frame_nested_siblings_checked");
+            }
             // frame: other top-level keys are untouched
             let first = p.split('.').next().unwrap_or("");
             if let (Value::Object(tm), Value::Object(xm)) = (&t, &x) {
@@ -920,7 +976,7 @@ fn step_update(run: &mut Run, tl: &Tl, s: &mut Settings, text: &str, fmt: &str, 
         pcts(fmt),
         pv(&pd.pj),
         pv(&pd.pt),
-        n.as_ref().map(|(_, v)| enc_sorted(v)).unwrap_or_else(|| "!".to_string())
+        n_enc(merged.as_ref())
     );
     // the public API
     let variant = match (fmt, r.below(4)) {
@@ -973,23 +1029,30 @@ fn step_update(run: &mut Run, tl: &Tl, s: &mut Settings, text: &str, fmt: &str, 
             }
             None => run.fail(idx, "invalid-accepted", format!("update succeeded although the merged document does not deserialize/validate (fmt {fmt})")),
         },
-        (Ok(_), Err(e)) if fmt != "json" && fmt != "toml" && err_class(e) == "format" => {
+        (Ok(_), Err(e)) if fmt != "json" && fmt != "toml" && err_class(e) == FORMAT => {
             // the statement does not require format names to be matched case-insensitively
             run.count("format_name_variant_rejected");
         }
         (Ok(wm), Err(e)) => {
-            if norm_real(wm).is_some() {
-                run.fail(idx, "valid-rejected", format!("update failed ({e}) although the merged document deserializes and validates (fmt {fmt})"));
-            } else {
-                run.count("rejected_after_parse");
-                run.nontrivial(key_of(&req));
+            match norm_err_class(wm) {
+                None => run.fail(idx, "valid-rejected", format!("update failed ({e}) although the merged document deserializes and validates (fmt {fmt})")),
+                Some(want_cls) => {
+                    run.count("rejected_after_parse");
+                    run.count(&format!("rejected_as_{want_cls}"));
+                    run.nontrivial(key_of(&req));
+                    // the caller sees the deserializer's refusal as BadParam and a validator's error as it is
+                    if err_class(e) != want_cls {
+                        run.fail(idx, "error-kind", format!("the merged document is refused with {want_cls}, the update reports {}", err_class(e)));
+                    }
+                }
             }
         }
         (Err(_), Ok(())) => run.fail(idx, "invalid-accepted", format!("update succeeded although the document does not parse as {fmt:?}")),
         (Err(c), Err(e)) => {
-            run.count(if *c == "format" { "rejected_format" } else { "rejected_parse" });
-            if (*c == "format") != (err_class(e) == "format") {
-                run.fail(idx, "error-kind", format!("format {fmt:?}: error {e}"));
+            run.count(if *c == FORMAT { "rejected_format" } else { "rejected_parse" });
+            // an unsupported format name is UnsupportedType, an unparsable document is BadParam
+            if err_class(e) != *c {
+                run.fail(idx, "error-kind", format!("format {fmt:?}: expected {c}, got error {e}"));
             }
         }
     }
@@ -1051,13 +1114,12 @@ fn step_setval(run: &mut Run, tl: &Tl, s: &mut Settings, path: &str, v: Value, r
     let cur = serde_json::to_value(&before).expect("to_value");
     let mut merged = cur.clone();
     let set_ok = hk::set_at_path(&mut merged, path, v.clone()).is_ok();
-    let n = if set_ok { norm_real(&merged) } else { None };
     let req = format!(
         "C25 setval cur={} p={} v={} n={}",
         enc(&cur),
         pcts(path),
         enc(&v),
-        n.as_ref().map(|(_, x)| enc_sorted(x)).unwrap_or_else(|| "!".to_string())
+        n_enc(if set_ok { Some(&merged) } else { None })
     );
     let by_with = r.chance(1, 3);
     run.count(if by_with { "api_with_value" } else { "api_set_value" });
@@ -1111,6 +1173,25 @@ fn step_setval(run: &mut Run, tl: &Tl, s: &mut Settings, path: &str, v: Value, r
                             run.fail(idx, "get-after-set", format!("set_value({path:?}, {v}) succeeded, get_value returns {:?}", got.as_ref().ok()));
                         }
                     }
+                    // the keep condition of `setValue_getValue_kept`, on the real serde: does the
+                    // normalised settings value hold at the path what the edited document held
+                    // (= the value set)? Every failure of it is counted and has to be one of the
+                    // documented normalisations of the schema; anything else is a violation.
+                    let schema = &tl.track.borrow().schema;
+                    let mut tags = vec![];
+                    if got.as_ref().ok() == Some(&v) {
+                        run.count("keep_holds");
+                    } else if explain_kept(path, &v, got.as_ref().ok(), &|p| schema.contains_key(p), &mut tags) {
+                        run.count("keep_fails_explained");
+                        tags.sort();
+                        tags.dedup();
+                        for t in tags {
+                            run.count(&format!("keep_fails_{t}"));
+                        }
+                    } else {
+                        run.count("keep_fails_unexplained");
+                        run.fail(idx, "get-after-set-unexplained", format!("set_value({path:?}, {v}) succeeded but get_value returns {:?}, which no schema normalisation (null = absent, enum case / alias, defaults filled in, unknown member dropped) accounts for", got.as_ref().ok()));
+                    }
                 }
                 None => run.fail(idx, "invalid-accepted", format!("set_value({path:?}, {v}) succeeded although the result does not deserialize/validate")),
             }
@@ -1126,10 +1207,76 @@ fn step_setval(run: &mut Run, tl: &Tl, s: &mut Settings, path: &str, v: Value, r
             if *s != before || after != cur {
                 run.fail(idx, "atomicity", format!("failed set_value({path:?}) changed the settings"));
             }
+            // the deserializer's refusal is BadParam, a validator's error comes through as it is
+            if let Some(want_cls) = norm_err_class(&want) {
+                if err_class(e) != want_cls {
+                    run.fail(idx, "error-kind", format!("set_value({path:?}): the edited document is refused with {want_cls}, reported {}", err_class(e)));
+                }
+            }
         }
     }
     post_step(run, idx, tl, &before, s, &[(path.to_string(), v.clone())], res.is_ok(), "set_value/with_value");
     tl_check(run, idx, tl, "set_value/with_value");
+}
+
+/// Does a documented normalisation of the schema account for `get_value(path)` returning `got`
+/// after `set_value(path, set)` succeeded? The normalisations (each tagged when used):
+///  * `null_is_absent`      — an optional set to null is serialized as absent (or as null);
+///  * `enum_case_folded`    — enum-valued strings are matched case-insensitively and written canonically;
+///  * `number_retyped`      — the same number in another serde_json number class;
+///  * `source_type_alias_expanded` — a digital source type given by its short alias is written as its URI;
+///  * `defaults_filled`     — members the value set did not mention appear with their defaults;
+///  * `unknown_dropped`     — a member / path that is not in the settings schema is ignored
+///                            (never a schema path: dropping one of those is a loss).
+fn explain_kept(path: &str, set: &Value, got: Option<&Value>, is_schema: &dyn Fn(&str) -> bool, tags: &mut Vec<&'static str>) -> bool {
+    match (set, got) {
+        (a, Some(b)) if a == b => true,
+        (Value::Null, None) => {
+            tags.push("null_is_absent");
+            true
+        }
+        (_, None) => {
+            if is_schema(path) {
+                false
+            } else {
+                tags.push("unknown_dropped");
+                true
+            }
+        }
+        (Value::String(a), Some(Value::String(b))) if a.eq_ignore_ascii_case(b) => {
+            tags.push("enum_case_folded");
+            true
+        }
+        (Value::Number(a), Some(Value::Number(b))) if a.as_f64() == b.as_f64() => {
+            tags.push("number_retyped");
+            true
+        }
+        (Value::String(a), Some(Value::String(b)))
+            if *b == format!("http://c2pa.org/digitalsourcetype/{a}") || *b == format!("http://cv.iptc.org/newscodes/digitalsourcetype/{a}") =>
+        {
+            // `DigitalSourceType`: `#[serde(alias = "<short name>", rename = "<URI>")]`
+            tags.push("source_type_alias_expanded");
+            true
+        }
+        (Value::Object(a), Some(Value::Object(b))) => {
+            let mut ok = true;
+            for (k, av) in a {
+                ok &= explain_kept(&format!("{path}.{k}"), av, b.get(k), is_schema, tags);
+            }
+            if b.keys().any(|k| !a.contains_key(k)) {
+                tags.push("defaults_filled");
+            }
+            ok
+        }
+        (Value::Array(a), Some(Value::Array(b))) if a.len() == b.len() => {
+            let mut ok = true;
+            for (x, y) in a.iter().zip(b.iter()) {
+                ok &= explain_kept(&format!("{path}[]"), x, Some(y), is_schema, tags);
+            }
+            ok
+        }
+        _ => false,
+    }
 }
 
 fn step_getval(run: &mut Run, s: &Settings, path: &str) {
@@ -1308,14 +1455,13 @@ fn tl_session(run: &mut Run, sc: &Schema, r: &mut Rng) {
                 hk::merge_json(&mut m, ov);
                 m
             });
-            let n = merged.as_ref().and_then(norm_real);
             let req = format!(
                 "C25 tlfrom tl={} fmt={} pj={} pt={} n={}",
                 enc(&before),
                 pcts(&fmt),
                 pv(&pd.pj),
                 pv(&pd.pt),
-                n.as_ref().map(|(_, v)| enc_sorted(v)).unwrap_or_else(|| "!".to_string())
+                n_enc(merged.as_ref())
             );
             let res = Settings::from_string(&text, &fmt);
             let after = hk::thread_local_value();
@@ -1348,13 +1494,12 @@ fn tl_session(run: &mut Run, sc: &Schema, r: &mut Rng) {
             let (p, v) = gen_path_value(sc, r);
             let mut merged = before.clone();
             let set_ok = hk::set_at_path(&mut merged, &p, v.clone()).is_ok();
-            let n = if set_ok { norm_real(&merged) } else { None };
             let req = format!(
                 "C25 tlset tl={} p={} v={} n={}",
                 enc(&before),
                 pcts(&p),
                 enc(&v),
-                n.as_ref().map(|(_, x)| enc_sorted(x)).unwrap_or_else(|| "!".to_string())
+                n_enc(if set_ok { Some(&merged) } else { None })
             );
             let res = hk::set_thread_local_value(&p, v.clone());
             let after = hk::thread_local_value();
@@ -1408,23 +1553,22 @@ fn ctx_case(run: &mut Run, sc: &Schema, tl: &Tl, r: &mut Rng) {
     }
     let pd = hook_parse(&text);
     let norm_of = |ov: &Option<Value>| {
-        ov.as_ref().and_then(|ov| {
-            let mut m = sc.dflt.clone();
-            hk::merge_json(&mut m, ov.clone());
-            norm_real(&m)
-        })
+        n_enc(ov.as_ref()
+            .map(|ov| {
+                let mut m = sc.dflt.clone();
+                hk::merge_json(&mut m, ov.clone());
+                m
+            })
+            .as_ref())
     };
-    let nj = norm_of(&pd.pj);
-    let nt = norm_of(&pd.pt);
-    let ns = |n: &Option<(Settings, Value)>| n.as_ref().map(|(_, v)| enc_sorted(v)).unwrap_or_else(|| "!".to_string());
     let req = format!(
         "C25 ctx dflt={} cur={} pj={} pt={} nj={} nt={}",
         enc(&sc.dflt),
         enc(&cur),
         pv(&pd.pj),
         pv(&pd.pt),
-        ns(&nj),
-        ns(&nt)
+        norm_of(&pd.pj),
+        norm_of(&pd.pt)
     );
     let res = ctx.set_settings(text.as_str());
     let after = serde_json::to_value(ctx.settings()).expect("to_value");
@@ -1445,16 +1589,304 @@ fn ctx_case(run: &mut Run, sc: &Schema, tl: &Tl, r: &mut Rng) {
             }
             run.nontrivial(key_of(&req));
         }
-        (Err(_), None) => {
+        (Err(e), None) => {
             if after != cur {
                 run.fail(idx, "atomicity", "failed Context::set_settings changed the context's settings".to_string());
             }
             run.nontrivial(key_of(&req));
+            // the error reported is the one of the second (TOML) attempt
+            let want_cls = match parse_toml_ref(&text) {
+                None => Some(BADPARAM.to_string()),
+                Some(ov) => norm_err_class(&ref_merge(&sc.dflt, &ov, 0)),
+            };
+            if want_cls.as_deref() != Some(err_class(e).as_str()) {
+                run.fail(idx, "error-kind", format!("Context::set_settings(&str): the TOML attempt fails with {want_cls:?}, reported {}", err_class(e)));
+            }
+            if parse_json_ref(&text).is_some() {
+                run.count("ctx_json_parsed_but_refused_then_toml");
+            }
         }
         (Ok(()), None) => run.fail(idx, "invalid-accepted", "Context::set_settings accepted an invalid document".to_string()),
         (Err(e), Some(_)) => run.fail(idx, "valid-rejected", format!("Context::set_settings rejected a valid document: {e}")),
     }
     tl_check(run, idx, tl, "Context::set_settings");
+}
+
+/// `Context::set_settings(serde_json::Value)` on a context that carries non-default settings.
+fn ctxval_case(run: &mut Run, sc: &Schema, tl: &Tl, r: &mut Rng) {
+    let (p0, v0) = extra_valid(r);
+    let start = Settings::new().with_value(&p0, v0).unwrap_or_else(|_| Settings::new());
+    let mut ctx = Context::new().with_settings(&start).expect("context");
+    let cur = serde_json::to_value(ctx.settings()).expect("to_value");
+    let mut info = DocInfo::default();
+    let doc = gen_doc(sc, &sc.dflt, r, &mut info);
+    // what the JSON parser makes of the value's serialisation
+    let text = serde_json::to_string(&doc).expect("to_string");
+    let pj = hk::parse_to_value(&text, "json").ok();
+    let merged = pj.as_ref().map(|ov| {
+        let mut m = sc.dflt.clone();
+        hk::merge_json(&mut m, ov.clone());
+        m
+    });
+    let req = format!("C25 ctxval dflt={} cur={} pj={} n={}", enc(&sc.dflt), enc(&cur), pv(&pj), n_enc(merged.as_ref()));
+    let res = ctx.set_settings(doc.clone());
+    let after = serde_json::to_value(ctx.settings()).expect("to_value");
+    let imp = match &res {
+        Ok(()) => format!("ok s={}", enc_sorted(&after)),
+        Err(e) => format!("err:{} s={}", err_class(e), enc_sorted(&after)),
+    };
+    run.count(if res.is_ok() { "ctxval_set_ok" } else { "ctxval_set_err" });
+    let idx = run.case(req.clone(), imp);
+    // serde_json round-trips the value (hypothesis of intoSettingsValue_roundtrip)
+    if pj.as_ref() != Some(&doc) {
+        run.fail(idx, "value-roundtrip", format!("parsing serde_json::to_string(value) does not give the value back: {doc}"));
+    }
+    // oracle: the defaults merged with the value itself; failure leaves the context as it was
+    let wm = ref_merge(&sc.dflt, &doc, 0);
+    match (&res, norm_class(&wm)) {
+        (Ok(()), Ok((ws, wv))) => {
+            if wv != after || ws != *ctx.settings() {
+                run.fail(idx, "merge-law", "Context::set_settings(Value) result is not defaults merged with the value".to_string());
+            }
+            run.nontrivial(key_of(&req));
+        }
+        (Err(e), Err(c)) => {
+            if after != cur {
+                run.fail(idx, "atomicity", "failed Context::set_settings(Value) changed the context's settings".to_string());
+            }
+            let want_cls = if c.is_empty() { BADPARAM.to_string() } else { c };
+            if err_class(e) != want_cls {
+                run.fail(idx, "error-kind", format!("Context::set_settings(Value): expected {want_cls}, reported {}", err_class(e)));
+            }
+            run.nontrivial(key_of(&req));
+        }
+        (Ok(()), Err(_)) => run.fail(idx, "invalid-accepted", "Context::set_settings(Value) accepted an invalid document".to_string()),
+        (Err(e), Ok(_)) => run.fail(idx, "valid-rejected", format!("Context::set_settings(Value) rejected a valid document: {e}")),
+    }
+    tl_check(run, idx, tl, "Context::set_settings(Value)");
+}
+
+// ---------------------------------------------------------------- files
+
+struct FileCase {
+    path: std::path::PathBuf,
+    /// the extension as `to_string_lossy` gives it; None = the path has none
+    ext: Option<String>,
+    ext_utf8: bool,
+    /// None = the file does not exist
+    bytes: Option<Vec<u8>>,
+}
+
+fn gen_file(dir: &std::path::Path, sc: &Schema, cur: &Value, r: &mut Rng, n: usize) -> FileCase {
+    use std::os::unix::ffi::OsStrExt;
+    let mut info = DocInfo::default();
+    let doc = gen_doc(sc, cur, r, &mut info);
+    let (mut text, natural) = match (r.chance(1, 2), toml_text(&doc)) {
+        (true, Some(t)) => (t, "toml"),
+        _ => (json_text(&doc, r), "json"),
+    };
+    if r.chance(1, 10) {
+        text = corrupt(&text, r);
+    }
+    let mut bytes = text.into_bytes();
+    match r.below(12) {
+        0 => {
+            // bytes that are not UTF-8, inside a string value where there is one (from_utf8_lossy)
+            let at = bytes.iter().position(|b| *b == b'"').map(|i| i + 1).unwrap_or(bytes.len());
+            bytes.splice(at..at, [0xff, 0xfe]);
+        }
+        1 => bytes.extend_from_slice(&[0xc3]), // truncated multi-byte sequence at the end
+        2 => {
+            let mut b = vec![0xef, 0xbb, 0xbf]; // byte-order mark
+            b.extend_from_slice(&bytes);
+            bytes = b;
+        }
+        _ => {}
+    }
+    // the extension: mostly the natural one, in several spellings; sometimes the other format,
+    // an unsupported one, none at all, or one that is not UTF-8
+    let stem = format!("s{n}");
+    let (name, ext, ext_utf8): (std::ffi::OsString, Option<String>, bool) = match r.below(16) {
+        0 => (stem.clone().into(), None, true),
+        1 => (format!(".{natural}").into(), None, true), // a dot-file has no extension
+        2 => (format!("{stem}.").into(), Some(String::new()), true),
+        3 => {
+            let mut raw = format!("{stem}.").into_bytes();
+            raw.extend_from_slice(&[b'j', 0xff, b's']);
+            let os = std::ffi::OsStr::from_bytes(&raw).to_os_string();
+            (os, Some(String::from_utf8_lossy(&[b'j', 0xff, b's']).into_owned()), false)
+        }
+        4 => {
+            let e = *r.pick(&["yaml", "jsonc", "txt", "json5", "tml"]);
+            (format!("{stem}.{e}").into(), Some(e.to_string()), true)
+        }
+        5 => {
+            let other = if natural == "json" { "toml" } else { "json" };
+            (format!("{stem}.{other}").into(), Some(other.to_string()), true)
+        }
+        6 => {
+            let e = natural.to_uppercase();
+            (format!("{stem}.{e}").into(), Some(e), true)
+        }
+        7 => {
+            let e = if natural == "json" { "Json" } else { "Toml" };
+            (format!("{stem}.x.{e}").into(), Some(e.to_string()), true)
+        }
+        _ => (format!("{stem}.{natural}").into(), Some(natural.to_string()), true),
+    };
+    let path = dir.join(name);
+    let exists = !r.chance(1, 12);
+    if exists {
+        std::fs::write(&path, &bytes).expect("write scratch file");
+    } else {
+        let _ = std::fs::remove_file(&path);
+    }
+    FileCase { path, ext, ext_utf8, bytes: if exists { Some(bytes) } else { None } }
+}
+
+fn file_fields(f: &FileCase) -> (String, Option<ParsedDoc>) {
+    let pd = f.bytes.as_ref().map(|b| hook_parse(&String::from_utf8_lossy(b)));
+    let s = format!(
+        "ext={} u={} rd={} pj={} pt={}",
+        f.ext.as_ref().map(|e| pcts(e)).unwrap_or_else(|| "-".to_string()),
+        if f.ext_utf8 { 1 } else { 0 },
+        if f.bytes.is_some() { 1 } else { 0 },
+        pd.as_ref().map(|p| pv(&p.pj)).unwrap_or_else(|| "!".to_string()),
+        pd.as_ref().map(|p| pv(&p.pt)).unwrap_or_else(|| "!".to_string()),
+    );
+    (s, pd)
+}
+
+/// `Settings::with_file`: the oracle is stated on the file's bytes and name, without the code under test.
+fn file_case(run: &mut Run, sc: &Schema, tl: &Tl, dir: &std::path::Path, r: &mut Rng, n: usize) {
+    let (p0, v0) = extra_valid(r);
+    let s = Settings::new().with_value(&p0, v0).unwrap_or_else(|_| Settings::new());
+    let cur = serde_json::to_value(&s).expect("to_value");
+    let f = gen_file(dir, sc, &cur, r, n);
+    let (ff, _) = file_fields(&f);
+    let merged = match (&f.ext, f.ext_utf8, &f.bytes) {
+        (Some(e), true, Some(b)) => hk::parse_to_value(&String::from_utf8_lossy(b), e).ok().map(|ov| {
+            let mut m = cur.clone();
+            hk::merge_json(&mut m, ov);
+            m
+        }),
+        _ => None,
+    };
+    let req = format!("C25 file cur={} {} n={}", enc(&cur), ff, n_enc(merged.as_ref()));
+    let res = guarded(AssertUnwindSafe(|| s.with_file(&f.path)));
+    let res = match res {
+        Ok(x) => x,
+        Err(p) => {
+            let idx = run.case(req, "panic".to_string());
+            run.fail(idx, "panic", p);
+            return;
+        }
+    };
+    let imp = match &res {
+        Ok(n) => format!("ok s={}", enc_sorted(&serde_json::to_value(n).expect("to_value"))),
+        Err(e) => format!("err:{}", err_class(e)),
+    };
+    run.count(if res.is_ok() { "file_ok" } else { "file_err" });
+    let idx = run.case(req.clone(), imp);
+    // the property on the implementation
+    let want: Result<(Settings, Value), String> = match (&f.ext, f.ext_utf8, &f.bytes) {
+        (None, _, _) | (_, false, _) => Err(BADPARAM.to_string()),
+        (_, _, None) => Err("IoError".to_string()),
+        (Some(e), true, Some(b)) => match parse_ref(&String::from_utf8_lossy(b), e) {
+            Err(c) => Err(c.to_string()),
+            Ok(ov) => norm_class(&ref_merge(&cur, &ov, 0)).map_err(|c| if c.is_empty() { BADPARAM.to_string() } else { c }),
+        },
+    };
+    match (&res, &want) {
+        (Ok(n), Ok((ws, _))) => {
+            if n != ws {
+                run.fail(idx, "merge-law", format!("with_file({:?}) is not the recursive merge of the settings with the file's document", f.path.file_name()));
+            }
+            if *n != s {
+                run.nontrivial(key_of(&req));
+            }
+        }
+        (Err(e), Err(c)) => {
+            run.count(&format!("file_rejected_{c}"));
+            if err_class(e) != *c {
+                run.fail(idx, "error-kind", format!("with_file({:?}): expected {c}, reported {}", f.path.file_name(), err_class(e)));
+            }
+            run.nontrivial(key_of(&req));
+        }
+        (Ok(_), Err(c)) => run.fail(idx, "invalid-accepted", format!("with_file({:?}) succeeded, expected {c}", f.path.file_name())),
+        (Err(e), Ok(_)) => run.fail(idx, "valid-rejected", format!("with_file({:?}) failed: {e}", f.path.file_name())),
+    }
+    // `with_file` takes `&self`: the settings it was called on are as before
+    if serde_json::to_value(&s).ok().as_ref() != Some(&cur) {
+        run.fail(idx, "atomicity", "with_file changed the settings it was called on".to_string());
+    }
+    tl_check(run, idx, tl, "with_file");
+    if f.bytes.is_some() {
+        let _ = std::fs::remove_file(&f.path);
+    }
+}
+
+/// `Settings::from_file` (deprecated): the thread-local value.
+#[allow(deprecated)]
+fn tlfile_case(run: &mut Run, sc: &Schema, dir: &std::path::Path, r: &mut Rng, n: usize) {
+    let before = hk::thread_local_value();
+    let f = gen_file(dir, sc, &before, r, n);
+    let (ff, _) = file_fields(&f);
+    let merged = match (&f.ext, &f.bytes) {
+        (Some(e), Some(b)) => hk::parse_to_value(&String::from_utf8_lossy(b), e).ok().map(|ov| {
+            let mut m = before.clone();
+            hk::merge_json(&mut m, ov);
+            m
+        }),
+        _ => None,
+    };
+    let req = format!("C25 tlfile tl={} {} n={}", enc(&before), ff, n_enc(merged.as_ref()));
+    let res = Settings::from_file(&f.path);
+    let after = hk::thread_local_value();
+    let imp = match &res {
+        Ok(s) => format!("ok s={} tl={}", enc_sorted(&serde_json::to_value(s).expect("to_value")), enc(&after)),
+        Err(e) => format!("err:{} tl={}", err_class(e), enc(&after)),
+    };
+    run.count(if res.is_ok() { "tl_from_file_ok" } else { "tl_from_file_err" });
+    let idx = run.case(req.clone(), imp);
+    let want: Result<Value, String> = match (&f.ext, &f.bytes) {
+        (None, _) => Err(FORMAT.to_string()),
+        (_, None) => Err("IoError".to_string()),
+        (Some(e), Some(b)) => match parse_ref(&String::from_utf8_lossy(b), e) {
+            Err(c) => Err(c.to_string()),
+            Ok(ov) => {
+                let m = ref_merge(&before, &ov, 0);
+                match norm_err_class(&m) {
+                    None => Ok(m),
+                    Some(c) => Err(c),
+                }
+            }
+        },
+    };
+    match (&res, &want) {
+        (Ok(_), Ok(m)) => {
+            if *m != after {
+                run.fail(idx, "merge-law", "thread-local value after from_file is not the recursive merge".to_string());
+            }
+            if after != before {
+                run.nontrivial(key_of(&req));
+            }
+        }
+        (Err(e), Err(c)) => {
+            if after != before {
+                run.fail(idx, "atomicity", format!("failed Settings::from_file({:?}) changed the thread-local settings", f.path.file_name()));
+            }
+            if err_class(e) != *c {
+                run.fail(idx, "error-kind", format!("from_file({:?}): expected {c}, reported {}", f.path.file_name(), err_class(e)));
+            }
+            run.nontrivial(key_of(&req));
+        }
+        (Ok(_), Err(c)) => run.fail(idx, "invalid-accepted", format!("from_file({:?}) succeeded, expected {c}", f.path.file_name())),
+        (Err(e), Ok(_)) => run.fail(idx, "valid-rejected", format!("from_file({:?}) failed: {e}", f.path.file_name())),
+    }
+    if f.bytes.is_some() {
+        let _ = std::fs::remove_file(&f.path);
+    }
 }
 
 // ---------------------------------------------------------------- run
@@ -1489,6 +1921,7 @@ pub fn run(run: &mut Run, rng: &mut Rng) {
     let n_sessions = if thorough { 20_000 } else { 4_000 };
     let n_tl = if thorough { 3_000 } else { 600 };
     let n_ctx = if thorough { 5_000 } else { 1_000 };
+    let n_files = if thorough { 6_000 } else { 1_200 };
 
     // fixed boundary sweep of the depth limit on the helper
     for d in [0usize, 1, 2, 31, 32, 33, 61, 62, 63, 64, 65, 66, 70, 200] {
@@ -1582,10 +2015,29 @@ pub fn run(run: &mut Run, rng: &mut Rng) {
         let mut r = rng.fork();
         ctx_case(run, &sc, &tl, &mut r);
     }
+    for _ in 0..n_ctx / 2 {
+        let mut r = rng.fork();
+        ctxval_case(run, &sc, &tl, &mut r);
+    }
+    let dir = vh::common::scratch("c25");
+    for i in 0..n_files {
+        let mut r = rng.fork();
+        file_case(run, &sc, &tl, &dir, &mut r, i);
+    }
     // builder-style calls left the thread-local settings alone
     run.obligations.insert("thread-local-untouched-by-instance-api".to_string(), hk::thread_local_value() == tl.at_start);
     for _ in 0..n_tl {
         let mut r = rng.fork();
         tl_session(run, &sc, &mut r);
     }
+    hk::reset_thread_local().expect("reset");
+    for i in 0..n_files / 2 {
+        let mut r = rng.fork();
+        if i % 5 == 0 {
+            hk::reset_thread_local().expect("reset");
+        }
+        tlfile_case(run, &sc, &dir, &mut r, i);
+    }
+    hk::reset_thread_local().expect("reset");
+    let _ = std::fs::remove_dir_all(&dir);
 }
